@@ -693,11 +693,13 @@ func threadConstantResults(fn *ssa.Function, cont *ssa.BasicBlock) {
 			}
 			testDefs[x] = true
 			outcome = func(k int) (bool, bool) {
-				c, ok := ph.Edges[k].(*ssa.Const)
-				if !ok || !c.IsNil() {
-					return false, false // a non-constant error value: unknown
+				if c, ok := ph.Edges[k].(*ssa.Const); ok && c.IsNil() {
+					return (x.Op == token.EQL) != neg, true
 				}
-				return (x.Op == token.EQL) != neg, true
+				if DefinitelyNonNil(ph.Edges[k], 0) {
+					return (x.Op == token.NEQ) != neg, true
+				}
+				return false, false // unknown
 			}
 		default:
 			return
@@ -1400,4 +1402,59 @@ func (p *Prog) allowedFunc(fn *ssa.Function, allowed func(f *ssa.Function) bool,
 		}
 	}
 	return true
+}
+
+
+// DefinitelyNonNil: v cannot be nil - a freshly made interface value or
+// allocation, or the result of a constructor that never returns nil
+// (errors.New, fmt.Errorf, oops.Errorf, or a module function all of whose
+// returns are such values).
+func DefinitelyNonNil(v ssa.Value, depth int) bool {
+	if depth > 3 {
+		return false
+	}
+	switch x := v.(type) {
+	case *ssa.MakeInterface, *ssa.Alloc, *ssa.MakeMap, *ssa.MakeSlice, *ssa.MakeChan, *ssa.MakeClosure, *ssa.Function:
+		return true
+	case *ssa.ChangeInterface:
+		return DefinitelyNonNil(x.X, depth+1)
+	case *ssa.ChangeType:
+		return DefinitelyNonNil(x.X, depth+1)
+	case *ssa.Phi:
+		for _, e := range x.Edges {
+			if e == ssa.Value(x) || !DefinitelyNonNil(e, depth+1) {
+				return false
+			}
+		}
+		return len(x.Edges) > 0
+	case *ssa.Call:
+		f := x.Call.StaticCallee()
+		if f == nil {
+			return false
+		}
+		if f.Pkg != nil {
+			switch f.Pkg.Pkg.Path() + "." + f.Name() {
+			case "errors.New", "fmt.Errorf", "github.com/samsarahq/go/oops.Errorf":
+				return true
+			}
+		}
+		if f.Blocks == nil || f.Signature.Results().Len() != 1 {
+			return false
+		}
+		pk := FuncPkg(f)
+		if pk == nil || !strings.HasPrefix(pk.Path(), ModulePath) {
+			return false
+		}
+		n := 0
+		for _, b := range f.Blocks {
+			if ret, ok := b.Instrs[len(b.Instrs)-1].(*ssa.Return); ok {
+				n++
+				if !DefinitelyNonNil(ret.Results[0], depth+1) {
+					return false
+				}
+			}
+		}
+		return n > 0
+	}
+	return false
 }
